@@ -657,6 +657,9 @@ Definition wild_last_only (reqs : list bytes) : bool :=
 (* no component of a link target looks like a pattern (containsWildcards) *)
 Definition literal_path (s : bytes) : bool := forallb (fun c => negb (contains_wildcards c)) (comps s).
 Definition links_literal (view : list node) : bool := forallb literal_path (forest_links view).
+(* no pattern anywhere: neither in a request nor in a link target *)
+Definition literal_only (view : list node) (reqs : list bytes) : bool :=
+  forallb literal_path reqs && links_literal view.
 
 (* well-formed views: what a file system can hold (names are single non-special
    components, distinct among siblings; only directories have entries) *)
